@@ -344,6 +344,35 @@ def run(ctx):
     for _ in range(nres):
         r.instances += 1
 
+    # ------------------------------------------------------------------ R12.6
+    r = ctx.rule("R12.6", "the first handler error stops the dispatch: in every HandlerVec iteration (and in the token dispatch loops built on them) no further handler call is reachable from a handler call except through the Ok edge of its `?`", "E-MIR reachability with the Ok edge removed", floor=3)
+    n66 = 0
+    for f in mir.fns:
+        if mir.is_test_fn(f) or not (f.key.startswith("HandlerVec::") or f.key.startswith("ContentHandlersDispatcher::") or f.key.startswith("HtmlRewriteController::")):
+            continue
+        cbs = [bi for bi, t in f.calls(r"Fn(Mut|Once)?::call(_mut|_once)?$")]
+        if not cbs:
+            continue
+        for cb in cbs:
+            key = f"{f.key}|handler-call"
+            n66 += 1
+            # the `?` on this call's result: switch on discr(Result::branch(<this call>)); value 0 = Continue (Ok)
+            ok_edges = []
+            for sb, b in enumerate(f.blocks):
+                t = b["term"]
+                if t["k"] == "switch" and "branch[Try](" in f.deep(t["d"]) and "call" in f.deep(t["d"]) and f.dominates(cb, sb):
+                    ok_edges += [(sb, x[1]) for x in t["ts"] if x[0] == 0]
+            res_ty = f.rec["locals"][f.blocks[cb]["term"]["dest"]["local"]]
+            r.inst(key, sample={"fn": f.key, "result_type": res_ty[:60], "ok_edges": len(ok_edges)})
+            if not res_ty.startswith("std::result::Result"):
+                continue          # infallible callback (e.g. match handler): nothing to stop on
+            nxt = f.blocks[cb]["term"]["t"]
+            reach = f.reachable_without_edges(nxt, removed_blocks=(), removed_edges=ok_edges)
+            again = [c for c in cbs if c in reach]
+            if again:
+                r.violate(key, f"{f.key}: after a handler returned Err another handler call is still reachable (the remaining handlers run, and may emit output, before the error is returned)", f.loc())
+    r.count("handler_call_sites", n66)
+
     ctx.not_decided += ["the prefix relation between the output of a failed run and of the complete run (run-time)"]
     ctx.assumptions += ["values listed in the reviewed non-emptiness table (lexeme raw bytes, validated names) are non-empty for the stated reasons"]
     return ("Who-may-call and dominance rules over every call that hands bytes to the OutputSink or to an output handler "
